@@ -17,12 +17,15 @@ LEVEL = "exploration"
 RULE = ("Seeded plans: 2-6 operations from {get, multiget, getnext, multigetnext, bulkget, set, multiset, walk, multiwalk, "
         "bulkwalk, table, bulktable} (walks and tables over overlapping subtrees) started together "
         "(asyncio.gather) on one shared client or on 2-3 clients (different agents, credentials, databases) on one loop; v2c "
-        "and v3 authPriv (fresh client, so engine discovery is concurrent too); SET targets are disjoint from everything else. "
+        "and v3 authPriv (fresh client, so engine discovery is concurrent too); the wall clock is tied to virtual time or advances "
+        "on every reading (concurrent requests then carry different ids); in some groups one operation is abandoned by its "
+        "caller (asyncio.wait_for) while the others go on; SET targets are disjoint from everything else. "
         "The schedule is the latency of each response datagram, keyed by (operation, exchange number): for groups of "
         "single-exchange operations the run index is decoded as a Lehmer code, so consecutive indices cover ALL k! answer "
         "orders (k<=5); groups containing walks are sampled; a lossy configuration adds drop/dup/late replies and "
         "retransmission. Oracle: every operation's outcome equals the outcome of a solo twin run of the same plan; each agent "
-        "saw only its own client's credentials; under v3 no request was rejected (all usmStats but unknownEngineIDs stay 0). "
+        "saw only its own client's credentials; the clients' configuration is unchanged afterwards and every sender call "
+        "carried it; under v3 no request was rejected (all usmStats but unknownEngineIDs stay 0). "
         "Distinct interleavings = distinct sequences of (event kind, operation, exchange) in the network event log.")
 ASSUMPTIONS = [
     "task wake-up order is decided solely by when the network delivers which datagram (asyncio's FIFO ready queue is kept "
@@ -30,7 +33,7 @@ ASSUMPTIONS = [
     "lossy configuration: an operation may end in Timeout instead of its solo result, never in a different result",
 ]
 PROBES = ["shared_client", "multi_client", "v3_concurrent_discovery", "complete_permutation_group", "contains_walk",
-          "same_request_id_in_flight", "lossy", "lossy_timeout", "set_in_group", "six_ops", "overlapping_walks"]
+          "same_request_id_in_flight", "lossy", "lossy_timeout", "set_in_group", "six_ops", "overlapping_walks", "distinct_request_ids_in_flight", "operation_abandoned_by_caller"]
 shrink_lists = [("ops",)]
 BASE = (1, 3, 6, 1, 2, 1, 7)
 #: SET targets lie before every object any operation reads: GETNEXT/GETBULK only move forward, so no read can ever reach them
@@ -107,7 +110,16 @@ def plan_for(tier: str, seed: int, i: int) -> dict:
     lossy = (not all_single) and rng.random() < 0.3
     perm_index = member % math.factorial(k) if all_single else None
     mrng = rng_for(seed, ID, tier + ":m", i)
+    # environment knobs drawn after everything else (so that the groups above keep their operations):
+    # - the wall clock advances on every reading in a third of the groups: concurrent requests then carry DIFFERENT ids
+    # - in a fifth of the sampled groups one operation is abandoned by its caller (asyncio.wait_for with a short deadline)
+    erng = rng_for(seed, ID, tier + ":e", group)
+    clock_mode = erng.choice(["tied", "tied", "stepping"])
+    cancel = None
+    if not all_single and erng.random() < 0.2:
+        cancel = {"op": erng.randrange(k), "after_ticks": erng.choice([1, 3, 10, 50, 300])}
     return {"prop": ID, "clients": clients, "ops": ops, "perm_index": perm_index, "latseed": mrng.getrandbits(40),
+            "clock_mode": clock_mode, "cancel": cancel,
             "complete": bool(all_single and math.factorial(k) <= 24),
             "faults": gen.gen_faults(mrng, lossy, timeout=3), "lossy": lossy, "epoch": rng.choice([1000, 1_700_000_000])}
 
@@ -117,6 +129,10 @@ def valid(plan: dict) -> bool:
 
 
 def simplify(plan: dict):
+    if plan.get("cancel"):
+        p = dict(plan); p["cancel"] = None; yield p
+    if plan.get("clock_mode") == "stepping":
+        p = dict(plan); p["clock_mode"] = "tied"; yield p
     if plan["perm_index"] is not None and plan["perm_index"] != 0:
         p = dict(plan); p["perm_index"] = 0; yield p
     for c in plan["clients"]:
@@ -138,7 +154,8 @@ def _lehmer(index: int, k: int) -> List[int]:
 
 
 def _run(plan: dict, only: Optional[int]) -> dict:
-    w = World(faults=plan["faults"] if only is None else None, clock={"mode": "tied", "epoch": plan["epoch"]})
+    w = World(faults=plan["faults"] if only is None else None,
+              clock={"mode": plan.get("clock_mode", "tied"), "epoch": plan["epoch"], "step": 1})
     agents = []
     clients = []
     for c in plan["clients"]:
@@ -165,10 +182,19 @@ def _run(plan: dict, only: Optional[int]) -> dict:
     w.net.tag_latency = tag_latency
     results: Dict[int, Any] = {}
 
+    cancel = plan.get("cancel") if only is None else None
+
     async def runop(j: int) -> None:
         OP_TAG.set(j)
+        coro = scen.do_op(clients[plan["ops"][j]["client"]], plan["ops"][j]["op"])
         try:
-            results[j] = ("ok", await scen.do_op(clients[plan["ops"][j]["client"]], plan["ops"][j]["op"]))
+            if cancel and cancel["op"] == j:
+                # the caller gives up on this operation: it is cancelled wherever it happens to be
+                results[j] = ("ok", await asyncio.wait_for(coro, cancel["after_ticks"] / 1024.0))
+            else:
+                results[j] = ("ok", await coro)
+        except asyncio.TimeoutError:
+            results[j] = ("abandoned",)
         except Exception as e:  # noqa: BLE001
             results[j] = ("exc", type(e).__name__, str(e)[:120])
 
@@ -176,13 +202,19 @@ def _run(plan: dict, only: Optional[int]) -> dict:
         idx = [only] if only is not None else list(range(k))
         await asyncio.gather(*[asyncio.ensure_future(runop(j)) for j in idx])
 
+    cfg_before = [(c.config.timeout, c.config.retries, repr(c.config.credentials), c.config.context) for c in clients]
     w.run(main())
     w.settle()
+    cfg_after = [(c.config.timeout, c.config.retries, repr(c.config.credentials), c.config.context) for c in clients]
+    cfg_leak = [ci for ci, (a, b) in enumerate(zip(cfg_before, cfg_after)) if a != b]
+    bad_calls = [(ci, call["timeout"], call["retries"]) for ci, c in enumerate(clients)
+                 for call in c._verif_recorder.calls if (call["timeout"], call["retries"]) != cfg_before[ci][:2]]
     inter = hashlib.sha256(repr([(e[2], e[-1]) for e in w.net.events if e[2] == "tag"]).encode()).hexdigest()[:16]
     rids_in_flight = _same_rid_in_flight(agents)
     out = {"results": results, "digest": w.net.digest(), "interleaving": inter, "agents": agents,
            "sim_s": w.loop.time(), "exchanges": sum(a.exchanges for a in agents), "counters": dict(w.net.counters),
-           "fired": list(w.net.fired), "same_rid": rids_in_flight, "open": w.net.open_sockets()}
+           "fired": list(w.net.fired), "same_rid": rids_in_flight, "open": w.net.open_sockets(),
+           "cfg_leak": cfg_leak, "bad_calls": bad_calls}
     w.close()
     return out
 
@@ -225,6 +257,8 @@ def execute(plan: dict) -> dict:
         a, b = conc["results"].get(j), solo["results"].get(j)
         if a == b:
             continue
+        if a is not None and a[0] == "abandoned":
+            continue            # abandoned by its caller: it has no result to compare; the OTHER operations must not notice
         if plan["lossy"] and a is not None and a[0] == "exc" and a[1] == "Timeout":
             lossy_timeout = 1
             continue
@@ -242,6 +276,11 @@ def execute(plan: dict) -> dict:
             fail("usm-stats", "agent %d counters %r" % (ci, bad))
     if conc["open"]:
         fail("socket-left-open", "sockets %s still open" % conc["open"])
+    if conc["cfg_leak"]:
+        fail("client-state-changed", "client %s: configuration after the concurrent group differs from before" % conc["cfg_leak"])
+    if conc["bad_calls"]:
+        fail("client-state-changed", "sender saw (client, timeout, retries) %s, which is not the client's configuration" % (
+            conc["bad_calls"][:3],))
     kinds = [o["op"]["op"] for o in plan["ops"]]
     v3 = plan["clients"][0]["proto"]["version"] == "v3"
     ndisco = sum(1 for ag in conc["agents"] for r in ag.requests if r.get("discovery"))
@@ -253,6 +292,8 @@ def execute(plan: dict) -> dict:
         "overlapping_walks": int(sum(1 for k in kinds if k in MULTI) >= 2), "same_request_id_in_flight": int(conc["same_rid"]),
         "lossy": int(plan["lossy"]), "lossy_timeout": lossy_timeout, "set_in_group": int("set" in kinds or "multiset" in kinds),
         "six_ops": int(len(kinds) == 6),
+        "distinct_request_ids_in_flight": int(plan.get("clock_mode") == "stepping"),
+        "operation_abandoned_by_caller": int(any(r[0] == "abandoned" for r in conc["results"].values())),
     }
     counters = dict(conc["counters"])
     counters["discoveries"] = ndisco
